@@ -1064,3 +1064,40 @@ package solver
 //@     invariant grow:  forall(v, 0, len(s.model), old(s.model[v]) != 0 ==> s.model[v] == old(s.model[v]))
 //@     invariant sound: old(agreesS(s.model, A)) && old(holds(clause, A)) ==> agreesS(s.model, A)
 //@     invariant heavy: old(agreesS(s.model, A)) && old(holds(clause, A)) ==> forall(k, 0, len(clause.lits), !tv(A, clause.lits[k]) ==> sfalse(s.model[clause.lits[k] / 2], clause.lits[k]))
+
+// ---------------------------------------------------------------- parse-time simplification of PB constraints (C02)
+
+//@ func (*Clause).WeightSum
+//@   requires nn: c != nil
+//@   loop 1
+//@     invariant idx: 0 <= rangei
+
+//@ func (*Problem).replicateUnits
+//@   inline-calls (Lit).Var, (Lit).IsPositive
+//@   requires nn: pb != nil
+//@   modifies pb.Model[*]
+//@   loop 1
+//@     invariant idx: 0 <= rangei
+
+// no literal of the clause mentions a variable that is bound in the parse-time model
+//@ define cleanC(pb *Problem, c *Clause) bool = forall(k, 0, len(c.lits), pb.Model[c.lits[k] / 2] == 0)
+
+// simplifyPB reaches a fixpoint: when it returns without refuting the problem, no remaining
+// constraint mentions a bound variable. The solver relies on this: top-level bindings are never
+// propagated through the watch lists, so a constraint that still held a literal falsified at
+// parse time would never be woken up for it. Every write of the scan (a new unit, a removed
+// literal, a removed constraint) must therefore schedule another pass (invariants fix).
+//@ func (*Problem).simplifyPB
+//@   inline-calls (*Clause).removeLit, (*Clause).updateCardinality, (*Problem).addUnit, (Lit).Var, (Lit).IsPositive
+//@   requires nn: pb != nil
+//@   modifies pb.Status, pb.Clauses, pb.Clauses[*], pb.Units, pb.Units[*], pb.Model[*], all Clause.lits, all []Lit, all Clause.lbdValue, all pbData.weights, all []int
+//@   ensures  clean: pb.Status != Unsat ==> forall(i, 0, len(pb.Clauses), cleanC(pb, pb.Clauses[i]))
+//@   loop 1
+//@     invariant fix: !modified ==> forall(i, 0, len(pb.Clauses), cleanC(pb, pb.Clauses[i]))
+//@   loop 2
+//@     invariant idx: 0 <= i
+//@     invariant fix: !modified ==> forall(i2, 0, i, i2 < len(pb.Clauses) ==> cleanC(pb, pb.Clauses[i2]))
+//@   loop 3
+//@     invariant idx: 0 <= i && 0 <= j && i < len(pb.Clauses) && (!modified ==> c == pb.Clauses[i])
+//@     invariant fix: !modified ==> forall(i2, 0, i, i2 < len(pb.Clauses) ==> cleanC(pb, pb.Clauses[i2]))
+//@     invariant cur: !modified ==> forall(k, 0, j, k < len(c.lits) ==> pb.Model[c.lits[k] / 2] == 0)
